@@ -692,10 +692,9 @@ def eval_meta(ctx, exe, cases, stats, hist):
 RANDOMIZED = ["spe", "ra", "lmds", "lisomap", "fa"]
 
 
-def gen_call(rng, methods):
+def gen_call(rng, methods, shape=None):
     m = rng.choice(methods)
-    N = rng.randint(10, 22)
-    D = rng.choice([3, 4])
+    N, D = shape or (rng.randint(10, 22), rng.choice([3, 4]))
     X = gen_float_data(rng, N, D, rng.choice(["blob", "roll"]))
     params = {"m": m, "d": rng.choice([1, 2]), "em": "dense", "nm": rng.choice(["brute", "covertree", "vptree"]),
               "k": rng.randint(5, 7)}
@@ -715,10 +714,15 @@ def gen_call(rng, methods):
 def gen_history(rng):
     L = rng.randint(2, 6)
     calls = []
+    # half of the histories keep one data shape (aimed at caches keyed by size), and then often one method
+    shape = (rng.randint(10, 22), rng.choice([3, 4])) if rng.random() < 0.5 else None
+    same = rng.choice(DET_METHODS) if shape and rng.random() < 0.5 else None
     for i in range(L):
         last = i == L - 1
         pool = DET_METHODS if last or rng.random() < 0.6 else RANDOMIZED
-        calls.append(gen_call(rng, pool))
+        if same and (last or rng.random() < 0.7):
+            pool = [same]
+        calls.append(gen_call(rng, pool, shape))
     return {"stream": "history", "calls": calls}
 
 
